@@ -219,6 +219,13 @@ def analyse_checks(events):
             if bad_ref:
                 invalid.append((e, bad_ref))
                 continue
+            # the backward solve must start from what a genuinely reversed step has available (the
+            # forward-stepped value), not from information about the point it is meant to recover
+            seeded = [b for b in back_impl if b.kind == "update" and b.info.get("guess", "current") != "current"]
+            if seeded:
+                g = seeded[0].info["guess"]
+                invalid.append((e, f"the backward implicit solve on the copy is started from `{g.split(':', 1)[1]}` instead of the copy's current value: the point the round trip is meant to recover is (by construction) a fixed point of the backward map, so a solve seeded with it converges at once and the check can never fail - a genuinely reversed step, which starts from the stepped state, may converge elsewhere or diverge"))
+                continue
             for b in back_impl:
                 valid.append((_impl_sig(b), id(block), e))
     return valid, invalid
